@@ -609,7 +609,10 @@ func (g *schemaGenerator) determineTypeName(t *schemas.Type) (string, bool) {
 			tidx = k
 		}
 
-		return t.Type[tidx], isPtr
+		// Two types of which neither is "null" are a choice between types, like a longer list.
+		if isPtr {
+			return t.Type[tidx], isPtr
+		}
 	}
 
 	g.warner("Property has multiple types; will be represented as interface{} with no validation")
